@@ -165,6 +165,10 @@ type Entry struct {
 	DashR   string // blanks after the dash
 	QMarks  int    // number of '?' (>= 1) for open ranges
 	Summary []Text // always len >= 1; Summary[0] == "" means no text on the entry line
+	// Sep is the blank between value and summary ("" = one space). A tab is accepted by klog but
+	// is not what the specification says ("one space"), so it is only generated where klog's own
+	// notion of a valid file is what matters (never for C01's construction oracle).
+	Sep string `json:",omitempty"`
 
 	// LooseTrail marks entries written by `klog pause`: trailing blanks of their summary lines
 	// are not compared (klog writes `-0m foo ` when there are no tags to append; cosmetic).
